@@ -413,6 +413,9 @@ func newScalarBinaryOperator(e *parser.BinaryExpr, selectorPool *engstore.Select
 func getTimeRangesForVectorSelector(n *parser.VectorSelector, opts *query.Options, evalRange time.Duration) (int64, int64) {
 	start := opts.Start.UnixMilli()
 	end := opts.End.UnixMilli()
+	if !opts.SelectEnd.IsZero() {
+		end = opts.SelectEnd.UnixMilli()
+	}
 	if n.Timestamp != nil {
 		start = *n.Timestamp
 		end = *n.Timestamp
